@@ -507,7 +507,7 @@ fn callee(rng: &mut StdRng, kind: u32) -> Vec<Instruction> {
     for k in 0..6u8 { p.push(op::movi(r(k), rng.gen_range(0..0x40000))); }
     p.push(op::lw(r(8), RegId::FP, 73));                 // param a
     p.push(op::lw(r(9), RegId::FP, 74));                 // param b
-    match kind % 8 {
+    match kind % 9 {
         0 => { p.push(op::ret(r(8))); }
         1 => {                                           // return data of length a from the heap
             p.push(op::aloc(r(8)));
@@ -532,9 +532,27 @@ fn callee(rng: &mut StdRng, kind: u32) -> Vec<Instruction> {
             p.push(op::sw(RegId::HP, r(8), 4));          // a - 1
             p.push(op::sw(RegId::HP, r(9), 5));          // b
             p.push(op::move_(r(5), RegId::HP));
-            p.push(op::movi(r(4), 32)); p.push(op::aloc(r(4)));   // zero asset id
-            p.push(op::call(r(5), RegId::ZERO, RegId::HP, RegId::CGAS));
+            p.push(op::addi(r(7), RegId::FP, 32));       // the asset forwarded to this frame
+            p.push(op::andi(r(10), r(9), 3));            // the contract forwards b mod 4 coins of it TO ITSELF (0: none)
+            p.push(op::call(r(5), r(10), r(7), RegId::CGAS));
             p.push(op::addi(r(6), RegId::RET, 1));
+            p.push(op::ret(r(6)));
+        }
+        8 => {                                           // recursion as in 3, but the INNERMOST callee allocates 8 bytes and stores one
+            p.push(op::jnzf(r(8), RegId::ZERO, 3));      // word ABOVE its allocation: at depth >= 2 that is the calling contract's heap
+            p.push(op::movi(r(4), 8)); p.push(op::aloc(r(4)));
+            p.push(op::sw(RegId::HP, r(1), 1));
+            p.push(op::ret(RegId::ONE));
+            p.push(op::movi(r(4), 48)); p.push(op::aloc(r(4)));
+            p.push(op::mcpi(RegId::HP, RegId::FP, 32));
+            p.push(op::subi(r(8), r(8), 1));
+            p.push(op::sw(RegId::HP, r(8), 4));
+            p.push(op::sw(RegId::HP, r(9), 5));
+            p.push(op::move_(r(5), RegId::HP));
+            p.push(op::movi(r(4), 32)); p.push(op::aloc(r(4)));
+            p.push(op::sw(RegId::HP, r(2), 0));          // a marker in this frame's heap which the callee must not change
+            p.push(op::call(r(5), RegId::ZERO, RegId::HP, RegId::CGAS));
+            p.push(op::lw(r(6), RegId::HP, 0));
             p.push(op::ret(r(6)));
         }
         4 => { p.push(op::rvrt(r(8))); }
@@ -562,12 +580,12 @@ fn calls(o: &Opts, out: &mut Out, run: &mut u64) {
     for k in 0..n {
         let mut tb = TestBuilder::new(o.seed.wrapping_add(k as u64));
         let asset: AssetId = if k % 3 == 0 { AssetId::zeroed() } else { rng.gen() };
-        let kind = rng.gen_range(0..8u32);
+        let kind = rng.gen_range(0..9u32);
         let c1 = tb.setup_contract(callee(&mut rng, kind), if k % 4 == 0 { Some((asset, rng.gen_range(0..1000))) } else { None }, None).contract_id;
         let k2 = rng.gen_range(0..3u32); let c2 = tb.setup_contract(callee(&mut rng, k2), None, None).contract_id;
         let not_input: ContractId = rng.gen();
         let target = match rng.gen_range(0..12) { 0 => not_input, 1 => c2, _ => c1 };
-        let (a, b) = (match kind % 8 { 1 => [0u64, 1, 7, 8, 33, 1000, 70000][rng.gen_range(0..7)], 3 => rng.gen_range(0..if thorough { 30 } else { 6 }), _ => rng.gen_range(0..100) }, rng.gen::<u64>());
+        let (a, b) = (match kind % 9 { 1 => [0u64, 1, 7, 8, 33, 1000, 70000][rng.gen_range(0..7)], 3 | 8 => rng.gen_range(0..if thorough { 30 } else { 6 }), _ => rng.gen_range(0..100) }, rng.gen::<u64>());
         let amount: u64 = match rng.gen_range(0..5) { 0 => 0, 1 => 1, 2 => 500, 3 => 1_000_000, _ => rng.gen_range(0..2000) };
         let fwd: u64 = match rng.gen_range(0..6) { 0 => 0, 1 => rng.gen_range(0..300), 2 => u64::MAX, _ => 1_000_000 };
         let mut data = Call::new(target, a, b).to_bytes();
